@@ -92,6 +92,9 @@ def run(ctx):
         scripts.append(flowgen.render((funcs, rep), fd3=True))
         wires.append("C02 " + flowgen.wire_prog((funcs, rep)))
     res = lib.pmap(lambda s: lib.run_both(s, timeout=30), scripts)
+    for i, (b, o) in enumerate(res):          # a timeout under load is not evidence: retry alone, generously
+        if b["timeout"] or o["timeout"]:
+            res[i] = lib.run_both(scripts[i], timeout=120)
     mouts = lib.run_drv_parallel(wires)
     for s, (b, o), m in zip(scripts, res, mouts):
         ctx.count("rep" + s, nontrivial=True, bucket="repeat-3")
